@@ -149,47 +149,56 @@ Globals are numbered by `GlobalId`; the programs say, for every global of the in
 time, in which operation it is written and in which it is read.  Props/C04 proves that the skeleton regenerated from
 the source inventory (Gen/SharedState.lean) is this one. -/
 
-/-- the runtime-written globals of the inventory, in the order of the committed classification table -/
+/-- the numbered process globals -/
 def gRng : Nat := 0          -- random / numpy.random global generator state
-def gNmne : Nat := 1         -- NetworkInterface.nmne_config
-def gCapture : Nat := 2      -- NICObservation.capture_nmne
+def gNmne : Nat := 1         -- NetworkInterface.nmne_config: since the F-10 repair an optional PROCESS-WIDE OVERRIDE that no environment
+                             -- operation writes (import-only; None = 0); before the repair: written by every from_config
+def gCapture : Nat := 2      -- NICObservation.capture_nmne: no longer consulted by anything (before the repair: written by every from_config)
 def gSimOutput : Nat := 3    -- SIM_OUTPUT attributes
 def gPcapLoggers : Nat := 4  -- PacketCapture._logger_instances
-def gImport : Nat := 5       -- stands for every import-only table (registries, PORT_LOOKUP, …)
+def gImport : Nat := 5       -- stands for every other import-only table (registries, PORT_LOOKUP, …)
 
 /-- env attributes -/
 def eEpisode : Nat := 0      -- episode_counter
 def eConfig : Nat := 1       -- the scheduler's scenario (constant part)
 def eNmneCfg : Nat := 2      -- the scenario's nmne_config (as a number)
 def eIo : Nat := 3           -- io settings
-def eUsesRng : Nat := 4      -- 1 iff the scenario has scripted agents / red applications that draw from the global generators
+def eUsesRng : Nat := 4      -- 1 iff the scenario has scripted agents / red applications that draw from the global generators in `step`
 def eScheduled : Nat := 5    -- 1 iff the scheduler hands out a different scenario per episode
 def eNmneVar : Nat := 6      -- 1 iff the scheduled scenarios differ in their nmne_config (then it is a function of the episode)
+def eBuildRng : Nat := 7     -- 1 iff `from_config` draws from the global generators: ANY scripted agent (start step / start node of periodic
+                             -- and TAP agents; a probabilistic agent draws the seed of its private generator from numpy's global one)
 /-- game attributes -/
 def lState : Nat := 0        -- simulation state digest
 def lStep : Nat := 1         -- step counter
+def lNmne : Nat := 2         -- `Network.nmne_config` of THIS game's network (per game since the F-10 repair)
 
-/-- `PrimaiteGame.from_config` + `update_agents`: writes the two NMNE class attributes from the scenario, builds the
-game from the scenario and the import-only tables, draws the scripted agents' start parameters from the global RNG. -/
+/-- the scenario the scheduler hands out for the current episode (constant schedulers ignore the episode number) -/
 def scenarioExpr : Expr := .add (.env eConfig) (.ite (.env eScheduled) (.env eEpisode) (.lit 0))
 
 /-- the `nmne_config` of the scenario the scheduler hands out for the current episode -/
 def nmneExpr : Expr := .add (.env eNmneCfg) (.ite (.env eNmneVar) (.env eEpisode) (.lit 0))
 
+/-- `NetworkInterface.nmne_settings`: the process-wide override when one is assigned (never by an environment operation), else the
+settings of the interface's own network -/
+def nmneInForce : Expr := .ite (.glob gNmne) (.glob gNmne) (.loc lNmne)
+
+/-- `PrimaiteGame.from_config` + `update_agents` AS THE CODE IS (after the F-10 repair): a new game whose own network carries the
+scenario's NMNE settings, built from the scenario and the import-only tables; scripted agents draw their start parameters from the
+global RNG. -/
 def buildGame : List Cmd :=
-  [ .setGlob gNmne nmneExpr,
-    .setGlob gCapture nmneExpr,
-    .newGame,
+  [ .newGame,
+    -- net.nmne_config = NMNEConfig(**network_config.get("nmne_config", {})): state of this game's network
+    .setLoc lNmne nmneExpr,
     -- every NIC's PacketCapture registers its file loggers (when pcap logging is on)
     .setGlob gPcapLoggers (.env eIo),
-    -- the scheduler's scenario for this episode (constant schedulers ignore the episode number)
     .setLoc lState (.add scenarioExpr (.glob gImport)),
     .setLoc lStep (.lit 0),
     -- scripted agents draw their start step / start node / private generator seed
-    .setLoc lState (.add (.loc lState) (.ite (.env eUsesRng) (.glob gRng) (.lit 0))),
-    .setGlob gRng (.ite (.env eUsesRng) (.lcg (.glob gRng)) (.glob gRng)),
-    -- the first observation reads the capture flag just written
-    .emit (.add (.loc lState) (.glob gCapture)) ]
+    .setLoc lState (.add (.loc lState) (.ite (.env eBuildRng) (.glob gRng) (.lit 0))),
+    .setGlob gRng (.ite (.env eBuildRng) (.lcg (.glob gRng)) (.glob gRng)),
+    -- the first observation: the NIC state carries NMNE counters iff capturing is in force for this game's network
+    .emit (.add (.loc lState) nmneInForce) ]
 
 /-- `PrimaiteGymEnv.__init__` with a configured seed: seed, io settings into SIM_OUTPUT, build. -/
 def constructProg : List Cmd :=
@@ -199,23 +208,72 @@ def constructProg : List Cmd :=
 def constructProgNoSeed : List Cmd :=
   [ .setGlob gSimOutput (.env eIo), .setEnv eEpisode (.lit 0) ] ++ buildGame
 
-/-- `PrimaiteGymEnv.reset(seed = arg)` -/
-def resetProg : List Cmd :=
-  [ .setGlob gRng .arg,
-    -- the old game's total reward is filed in `total_reward_per_episode` and the agent log is written: records for the user that no
+/-- the statements of `PrimaiteGymEnv.reset` in front of the rebuild (after the seeding) -/
+def resetHead : List Cmd :=
+  [ -- the old game's total reward is filed in `total_reward_per_episode` and the agent log is written: records for the user that no
     -- later operation reads (Gen/IsolationReset: not in `laterReads`), hence modelled as output
     .log (.add (.loc lState) (.glob gSimOutput)),
     .setEnv eEpisode (.add (.env eEpisode) (.lit 1)),
-    .setGlob gPcapLoggers (.lit 0) ] ++ buildGame
+    .setGlob gPcapLoggers (.lit 0) ]
+
+/-- `PrimaiteGymEnv.reset(seed = arg)` -/
+def resetProg : List Cmd := [ .setGlob gRng .arg ] ++ resetHead ++ buildGame
 
 /-- `reset()` without a seed -/
-def resetProgNoSeed : List Cmd :=
-  [ .log (.add (.loc lState) (.glob gSimOutput)), .setEnv eEpisode (.add (.env eEpisode) (.lit 1)),
-    .setGlob gPcapLoggers (.lit 0) ] ++ buildGame
+def resetProgNoSeed : List Cmd := resetHead ++ buildGame
 
-/-- `PrimaiteGymEnv.step(arg)` as the code is: NICs consult `nmne_config`, the NIC observation consults `capture_nmne`,
-scripted agents and red applications draw from the global RNG — none of them re-written by `step`. -/
+/-- `PrimaiteGymEnv.step(arg)` as the code is: NICs and the NIC observation follow the NMNE settings in force for their own game's
+network; scripted agents and red applications draw from the global RNG, which `step` does not re-seed (F-11). -/
 def stepProg : List Cmd :=
+  [ .setLoc lStep (.add (.loc lStep) (.lit 1)),
+    .setLoc lState (.add (.add (.loc lState) .arg) nmneInForce),
+    .setLoc lState (.add (.loc lState) (.ite (.env eUsesRng) (.glob gRng) (.lit 0))),
+    .setGlob gRng (.ite (.env eUsesRng) (.lcg (.glob gRng)) (.glob gRng)),
+    .log (.glob gSimOutput),
+    .emit (.add (.loc lState) nmneInForce),
+    .emit (.loc lStep) ]
+
+/-- `step` of an instance none of whose agents / applications draws from the global generators (`eUsesRng = 0`): the same program with the
+dead generator accesses removed. `stepProg` behaves like this one on such an instance (Props: `step_norng_eq`). -/
+def stepProgNoRng : List Cmd :=
+  [ .setLoc lStep (.add (.loc lStep) (.lit 1)),
+    .setLoc lState (.add (.add (.loc lState) .arg) nmneInForce),
+    .setLoc lState (.add (.loc lState) (.lit 0)),
+    .log (.glob gSimOutput),
+    .emit (.add (.loc lState) nmneInForce),
+    .emit (.loc lStep) ]
+
+/-- `step` with the recorded leak removed (what it would be if the scripted agents owned their generators): reads only the game, the
+action and import-only tables. -/
+def stepProgClean : List Cmd :=
+  [ .setLoc lStep (.add (.loc lStep) (.lit 1)),
+    .setLoc lState (.add (.add (.loc lState) .arg) (.glob gImport)),
+    .log (.glob gSimOutput),
+    .emit (.loc lState),
+    .emit (.loc lStep) ]
+
+/-! #### the programs BEFORE the F-10 repair (NOT the code any more; kept to show what the repair removed and what the Gen obligations
+`C04_gen_nmne_per_game` / `C04_gen_writes_unconditional` exclude) -/
+
+/-- `from_config` when the NMNE settings were two class attributes written by every game -/
+def buildGameClassAttrs : List Cmd :=
+  [ .setGlob gNmne nmneExpr,
+    .setGlob gCapture nmneExpr,
+    .newGame,
+    .setGlob gPcapLoggers (.env eIo),
+    .setLoc lState (.add scenarioExpr (.glob gImport)),
+    .setLoc lStep (.lit 0),
+    .setLoc lState (.add (.loc lState) (.ite (.env eBuildRng) (.glob gRng) (.lit 0))),
+    .setGlob gRng (.ite (.env eBuildRng) (.lcg (.glob gRng)) (.glob gRng)),
+    .emit (.add (.loc lState) (.glob gCapture)) ]
+
+def constructProgClassAttrs : List Cmd :=
+  [ .setGlob gRng .arg, .setGlob gSimOutput (.env eIo), .setEnv eEpisode (.lit 0) ] ++ buildGameClassAttrs
+
+def resetProgClassAttrs : List Cmd := [ .setGlob gRng .arg ] ++ resetHead ++ buildGameClassAttrs
+
+/-- `step` when NICs consulted the class attribute `nmne_config` and the NIC observation the class attribute `capture_nmne` -/
+def stepProgClassAttrs : List Cmd :=
   [ .setLoc lStep (.add (.loc lStep) (.lit 1)),
     .setLoc lState (.add (.add (.loc lState) .arg) (.glob gNmne)),
     .setLoc lState (.add (.loc lState) (.ite (.env eUsesRng) (.glob gRng) (.lit 0))),
@@ -224,28 +282,80 @@ def stepProg : List Cmd :=
     .emit (.add (.loc lState) (.glob gCapture)),
     .emit (.loc lStep) ]
 
-/-- `step` with the three recorded leaks removed (what it would be if NMNE settings lived on the instance and the
-scripted agents owned their generators): reads only the game, the action and import-only tables. -/
-def stepProgClean : List Cmd :=
-  [ .setLoc lStep (.add (.loc lStep) (.lit 1)),
-    .setLoc lState (.add (.add (.loc lState) .arg) (.glob gImport)),
-    .log (.glob gSimOutput),
-    .emit (.loc lState),
-    .emit (.loc lStep) ]
-
-/-- NOT the code: `from_config` as it would be if it assigned the NMNE class attributes only for a scenario that has a non-empty
-`nmne_config` section (a truthy value here). The write is conditional, so the operation reads what an earlier operation left
-(`resetProgCond_not_ok`, `C04_conditional_write_counterexample` in Props/C04). Gen obligation `C04_gen_writes_unconditional` excludes it. -/
+/-- `from_config` as it would be if it assigned class-level NMNE settings only for a scenario that has a non-empty `nmne_config` section
+(a truthy value here). The write is conditional, so the operation reads what an earlier operation left (`resetProgCond_not_ok`,
+`C04_conditional_write_counterexample` in Props/C04). -/
 def buildGameCond : List Cmd :=
   [ .setGlob gNmne (.ite nmneExpr nmneExpr (.glob gNmne)),
-    .setGlob gCapture (.ite nmneExpr nmneExpr (.glob gCapture)) ] ++ buildGame.drop 2
+    .setGlob gCapture (.ite nmneExpr nmneExpr (.glob gCapture)) ] ++ buildGameClassAttrs.drop 2
 
-def resetProgCond : List Cmd :=
-  [ .setGlob gRng .arg, .log (.add (.loc lState) (.glob gSimOutput)), .setEnv eEpisode (.add (.env eEpisode) (.lit 1)),
-    .setGlob gPcapLoggers (.lit 0) ] ++ buildGameCond
+def resetProgCond : List Cmd := [ .setGlob gRng .arg ] ++ resetHead ++ buildGameCond
 
-/-- the committed classification of the numbered globals -/
+/-! ### the seed argument: which skeleton operation a CALL `reset(seed=…)` / `PrimaiteGymEnv(cfg)` is
+
+`reset`'s parameter is `Optional[int]`; `None` and `0` are different arguments. The code tests `seed is not None` and hands the value to
+`set_random_seed`, which (quirks kept) treats `None` and `-1` as "no seed", raises below `-1`, and otherwise seeds Python's, numpy's and
+torch's process-global generators with the value. Gen/IsolationReset regenerates both functions from source; Props/C04 proves them equal
+to these for EVERY argument. -/
+
+inductive SeedOutcome
+  | keeps              -- the generators stay where the process left them
+  | seeds (v : Int)    -- random.seed(v); numpy.random.seed(v); torch.manual_seed(v)
+  | generated          -- seeded with a value drawn from OS entropy (`generate_seed_value`): outside the deterministic model
+  | raises             -- ValueError("Invalid random number seed"): the operation does not happen
+  deriving DecidableEq, Repr
+
+/-- `set_random_seed(seed, generate_seed_value)` -/
+def setRandomSeed (seed : Option Int) (gen : Bool) : SeedOutcome :=
+  match seed with
+  | none => if gen then .generated else .keeps
+  | some v => if v = -1 then (if gen then .generated else .keeps) else if v < -1 then .raises else .seeds v
+
+/-- the guard in front of the call in `PrimaiteGymEnv.reset`: `if seed is not None:` -/
+def resetSeedGuard (seed : Option Int) : Bool := seed.isSome
+
+/-- `reset(seed=…)` of an environment whose `generate_seed_value` is `gen` -/
+def resetSeeding (seed : Option Int) (gen : Bool) : SeedOutcome :=
+  if resetSeedGuard seed then setRandomSeed seed gen else .keeps
+
+/-- the (program, argument) of the skeleton that a call `reset(seed=…)` executes; `none`: outside the model (entropy / raises) -/
+def resetCall (seed : Option Int) (gen : Bool := false) : Option (List Cmd × Val) :=
+  match resetSeeding seed gen with
+  | .seeds v => some (resetProg, v)
+  | .keeps => some (resetProgNoSeed, 0)
+  | .generated => none
+  | .raises => none
+
+/-- `PrimaiteGymEnv(cfg)`: `self.seed = set_random_seed(<game.seed of episode 0>, generate_seed_value)`, unconditionally -/
+def constructCall (seed : Option Int) (gen : Bool := false) : Option (List Cmd × Val) :=
+  match setRandomSeed seed gen with
+  | .seeds v => some (constructProg, v)
+  | .keeps => some (constructProgNoSeed, 0)
+  | .generated => none
+  | .raises => none
+
+/-- NOT the code: `reset` with the guard written as a truthiness test (`if seed:`): `reset(seed=0)` is an unseeded reset -/
+def resetSeedGuardTruthy (seed : Option Int) : Bool :=
+  match seed with
+  | some v => decide (v ≠ 0)
+  | none => false
+
+def resetCallTruthy (seed : Option Int) (gen : Bool := false) : Option (List Cmd × Val) :=
+  match (if resetSeedGuardTruthy seed then setRandomSeed seed gen else .keeps) with
+  | .seeds v => some (resetProg, v)
+  | .keeps => some (resetProgNoSeed, 0)
+  | .generated => none
+  | .raises => none
+
+/-- the committed classification of the numbered globals: since the F-10 repair the NMNE class attributes are written by no operation -/
 def refClass (g : Nat) : GClass :=
+  if g = gRng then .rng
+  else if g = gSimOutput then .sinkOnly
+  else if g = gPcapLoggers then .sinkOnly
+  else .importOnly
+
+/-- the classification the pre-repair programs were checked against (class attributes re-written by every from_config before they are read) -/
+def refClassPreFix (g : Nat) : GClass :=
   if g = gRng then .rng
   else if g = gNmne then .rewrittenBeforeRead
   else if g = gCapture then .rewrittenBeforeRead
@@ -253,10 +363,10 @@ def refClass (g : Nat) : GClass :=
   else if g = gPcapLoggers then .sinkOnly
   else .importOnly
 
-def initInst (cfg nmne io : Val) (usesRng : Val := 1) (scheduled : Val := 0) (nmneVar : Val := 0) : Inst :=
+def initInst (cfg nmne io : Val) (usesRng : Val := 1) (scheduled : Val := 0) (nmneVar : Val := 0) (buildRng : Val := usesRng) : Inst :=
   { env := fun x => if x = eConfig then cfg else if x = eNmneCfg then nmne else if x = eIo then io
                     else if x = eUsesRng then usesRng else if x = eScheduled then scheduled
-                    else if x = eNmneVar then nmneVar else 0,
+                    else if x = eNmneVar then nmneVar else if x = eBuildRng then buildRng else 0,
     loc := fun _ => 0 }
 
 end Primaite.Isolation
